@@ -358,4 +358,73 @@ def precision(repo: Repo) -> RuleRun:
 
 precision.rule_id = "C06.PRECISION"
 
-RULES = [sections, side_tables, vertex_ownership, geometry_label, precision]
+def patch_state(repo: Repo) -> RuleRun:
+    """Abstract run of the PatchList mutators the mesh exposes: what the user declared is what is stored."""
+    r = RuleRun(PROP, "C06.PATCH-STATE", floor=8, what="PatchList.modify / set_default / merge / get store exactly what was declared")
+    pl_cls = repo.cls("lists.patch_list.PatchList")
+    modify = repo.func("lists.patch_list.PatchList.modify")
+
+    def fresh():
+        pl = Obj("patch_list", cls=pl_cls)
+        pl.set("patches", {})
+        pl.set("default", {})
+        pl.set("merged", [])
+        return pl
+
+    def ev():
+        return Evaluator(repo=repo, module=modify.module)
+
+    pl = fresh()
+    _run(ev(), modify, [pl, "inlet", "wall", ["a 1"]])
+    p1 = pl.get("patches").get("inlet")
+    ok = isinstance(p1, Obj) and p1.get("kind") == "wall" and p1.get("settings") == ["a 1"] and p1.get("name") == "inlet"
+    r.check(ok, modify, "modify creates the patch with type and settings", f"modify('inlet','wall',['a 1']) stores {p1._attrs if isinstance(p1, Obj) else p1}", modify.node, key="modify:new")
+    _run(ev(), modify, [pl, "inlet", "cyclic", None])
+    r.check(p1.get("kind") == "cyclic" and p1.get("settings") == ["a 1"], modify, "settings=None keeps the settings, type changes", f"modify(..., settings=None) leaves kind={p1.get('kind')!r}, settings={p1.get('settings')!r}", modify.node, key="modify:none")
+    _run(ev(), modify, [pl, "inlet", "wall", []])
+    r.check(p1.get("settings") == [], modify, "an empty settings list clears the settings", f"modify('inlet','wall',[]) leaves the old settings {p1.get('settings')!r} in place: settings once given can never be removed and are still written", modify.node, key="modify:empty")
+    _run(ev(), modify, [pl, "inlet", "patch", ["b 2", "c 3"]])
+    r.check(p1.get("settings") == ["b 2", "c 3"] and pl.get("patches").get("inlet") is p1 and len(pl.get("patches")) == 1, modify, "modify replaces settings on the same patch object", f"repeated modify gives {p1.get('settings')!r} / {list(pl.get('patches'))}", modify.node, key="modify:replace")
+    sd = repo.func("lists.patch_list.PatchList.set_default")
+    _run(ev(), sd, [pl, "walls", "wall"])
+    r.check(pl.get("default") == {"name": "walls", "kind": "wall"}, sd, "default patch stored as name/kind", f"set_default('walls','wall') stores {pl.get('default')}", sd.node, key="set_default")
+    desc = repo.func("lists.patch_list.PatchList.description")
+    src = ast.unparse(desc.node)
+    r.check("self.default['name']" in src and "self.default['kind']" in src and "name {" in src.replace("\\t", "") and "type {" in src.replace("\\t", ""), desc, "defaultPatch writes name and type", "PatchList.description does not write defaultPatch name/type from the stored default", desc.node, key="default:writer")
+    # Patch.description: type, settings, faces
+    pd = repo.func("items.patch.Patch.description")
+    patch = Obj("patch", cls=repo.cls("items.patch.Patch"))
+    patch.set("name", "NAME")
+    patch.set("kind", "KIND")
+    patch.set("settings", ["S1", "S2"])
+    patch.set("sides", [Obj("q0", description="(0 1 2 3)"), Obj("q1", description="(4 5 6 7)")])
+    text = _run(Evaluator(repo=repo, module=pd.module), pd, [patch])
+    want_order = ["NAME", "type KIND;", "S1;", "S2;", "faces", "(0 1 2 3)", "(4 5 6 7)"]
+    pos = [text.find(w) if isinstance(text, str) else -1 for w in want_order]
+    r.check(isinstance(text, str) and all(x >= 0 for x in pos) and pos == sorted(pos), pd, "patch entry: name, type, settings, every quad", f"Patch.description renders {text!r}; expected name, 'type KIND;', each setting and every assigned quad once", pd.node, key="patch:description")
+    # Patch.add_side refuses the same quad twice (Side equality by vertex set)
+    pa = repo.func("items.patch.Patch.add_side")
+    patch.set("sides", [])
+    s1 = Obj("side1")
+    _run(Evaluator(repo=repo, module=pa.module), pa, [patch, s1])
+    _run(Evaluator(repo=repo, module=pa.module), pa, [patch, s1])
+    r.check(patch.get("sides") == [s1], pa, "a quad is listed once per patch", f"Patch.add_side lists the same quad {len(patch.get('sides'))} times", pa.node, key="patch:add_side")
+    return r
+
+
+patch_state.rule_id = "C06.PATCH-STATE"
+
+
+def delete_skip(repo: Repo) -> RuleRun:
+    from . import c12
+
+    res = c12.delete_skip(repo)
+    res.prop, res.rule = PROP, "C06.DELETE-SKIP"
+    for f in res.findings:
+        f.property, f.rule = PROP, "C06.DELETE-SKIP"
+    return res
+
+
+delete_skip.rule_id = "C06.DELETE-SKIP"
+
+RULES = [sections, side_tables, vertex_ownership, patch_state, delete_skip, geometry_label, precision]
